@@ -9,7 +9,7 @@ ENCODED = ['DependencyFallbacksHolder.__init__/set_fallback/lookup/_get_candidat
            '_get_subproject_dep/_get_cached_dep/_check_version/_verify_fallback_consistency', 'WrapMode.from_string', 'version_compare_many', 'stringlistify',
            'wrap.Resolver._get_file_internal/_download/check_hash/check_can_download', 'wrap.Resolver._resolve (try/except around apply_patch / apply_diff_files)']
 EXPLANATION = ('Symbolic execution of the real dependency-fallback decision procedure with its environment replaced by nondeterministic stubs: wrap_mode, membership of the name / the '
-               'subproject in force_fallback_for, required, allow_fallback, the kind of fallback, whether the system has the dependency, whether the subproject configures, an '
+               'subproject in force_fallback_for, required, allow_fallback, the `fallback:` keyword as set_fallback receives it (absent, empty list, [subproject], [subproject, variable]), a wrap [provide] entry, whether the system has the dependency, whether the subproject configures, an '
                'explicit override, and symbolic version numbers against a symbolic version constraint; the outcome is compared with the documented decision table, the '
                'number of system probes is counted, and a repeated lookup must return the same object. Wrap sources: file existence, SHA-256 digests (symbolic strings), '
                'download failures are symbols; a path is handed out for unpacking only if the digest of the bytes at that path equals the recorded hash.')
@@ -69,7 +69,10 @@ def ob_policy(with_versions):
         fff_name = decide(sym_bool('force_fallback_for_has_name')); fff_sub = decide(sym_bool('force_fallback_for_has_subproject'))
         required = decide(sym_bool('required'))
         allow = [None, True, False][choose(3, 'allow_fallback')]
-        fbkind = choose(3, 'fallback_kind')      # 0 none, 1 explicit [sub, var], 2 wrap [provide]
+        # the `fallback:` keyword as dependency() passes it to set_fallback (always called, None when absent) and, independently, a wrap [provide] entry
+        fbarg = [None, [], ['sub', 'foo_dep'], ['sub']][choose(4, 'fallback_kwarg')]
+        provides = decide(sym_bool('wrap_provides'))
+        explicit = bool(fbarg)
         sys_present = decide(sym_bool('system_has_it'))
         sub_ok = decide(sym_bool('subproject_configures'))
         sub_overrides = decide(sym_bool('subproject_overrides_name'))
@@ -92,8 +95,8 @@ def ob_policy(with_versions):
             def put(self, k, v): self[k] = v
         interp.coredata.deps = {MachineChoice.HOST: Cache()}
         interp.build = types.SimpleNamespace(dependency_overrides={MachineChoice.HOST: {}})
-        wr = types.SimpleNamespace(find_dep_provider=lambda n: ('sub', 'foo_dep') if fbkind == 2 else (None, None),
-                                   get_varname=lambda s, n: 'foo_dep' if fbkind == 2 else None)
+        wr = types.SimpleNamespace(find_dep_provider=lambda n: ('sub', 'foo_dep') if provides else (None, None),
+                                   get_varname=lambda s, n: 'foo_dep' if provides else None)
         interp.environment = types.SimpleNamespace(wrap_resolver=wr)
         interp.subprojects = {MachineChoice.HOST: {}}
         subdep = mkdep('subproject', True, sub_ver)
@@ -127,9 +130,10 @@ def ob_policy(with_versions):
         DF.dependencies = types.SimpleNamespace(find_external_dependency=find_external_dependency, get_dep_identifier=dependencies.get_dep_identifier)
         try:
             df = DF.DependencyFallbacksHolder(interp, ['foo'], MachineChoice.HOST, allow_fallback=allow)
-            if fbkind == 1: df.set_fallback(['sub', 'foo_dep'])
+            df.set_fallback(None if fbarg is None else list(fbarg))
         except MesonException:
-            check(fbkind == 1 and allow is not None, 'argument error only for fallback together with allow_fallback'); cover('arg-error'); return
+            check(fbarg is not None and allow is not None, 'argument error only for fallback together with allow_fallback'); cover('arg-error'); return
+        check(not (fbarg is not None and allow is not None), '`fallback:` (an empty list too) together with allow_fallback is an argument error')
         kw = {'required': required, 'native': MachineChoice.HOST}
         if wanted: kw['version'] = list(wanted)
         try:
@@ -139,9 +143,10 @@ def ob_policy(with_versions):
             dep = None
             res = 'error'
         # ---- the documented decision table
-        has_fb = fbkind == 1 or (fbkind == 2 and allow is not False)
+        eff_allow = False if (fbarg is not None and not fbarg) else allow      # dependency.yaml: `fallback: []` has the same effect as allow_fallback: false
+        has_fb = explicit or (provides and eff_allow is not False)
         forced = wm == 'forcefallback' or fff_name or (fff_sub and has_fb)
-        if fbkind == 2 and allow is None and not required and not forced:
+        if not explicit and provides and eff_allow is None and not required and not forced:
             has_fb = False     # implicit [provide] fallback only for required lookups unless allow_fallback: true or forced
         nofb = wm == 'nofallback'
         ver_ok = True
@@ -153,6 +158,8 @@ def ob_policy(with_versions):
                 ver_ok = decide(bt_any({'>=': a_ >= b_, '<': a_ < b_, '<=': a_ <= b_, '!=': a_ != b_, '==': a_ == b_, '>': a_ > b_}[vop]))
         fail = 'error' if required else 'notfound'
         sub_result = ('subproject' if ver_ok else fail) if sub_ok else fail
+        if fbarg == ['sub'] and not provides and not sub_overrides:
+            sub_result = fail      # a fallback without a variable name: the subproject must override the name, or the wrap must name the variable
         if forced and has_fb:
             exp = sub_result
             check(calls['system'] == 0, 'the system is not consulted when fallback is forced')
@@ -168,7 +175,7 @@ def ob_policy(with_versions):
         # ---- repeated lookup
         if res in ('system', 'subproject'):
             df2 = DF.DependencyFallbacksHolder(interp, ['foo'], MachineChoice.HOST, allow_fallback=allow)
-            if fbkind == 1: df2.set_fallback(['sub', 'foo_dep'])
+            df2.set_fallback(None if fbarg is None else list(fbarg))
             n0 = calls['subproject']
             d2 = df2.lookup(dict(kw))
             check(d2 is dep, 'a repeated lookup returns the same dependency')
@@ -356,7 +363,7 @@ def ob_cleanup():
 
 
 def obligations(tier):
-    out = [Obligation('policy', ob_policy(False), dict(cells='wrap_mode x force_fallback_for(name,subproject) x required x allow_fallback x fallback kind x system x subproject ok x override'),
+    out = [Obligation('policy', ob_policy(False), dict(cells='wrap_mode x force_fallback_for(name,subproject) x required x allow_fallback x fallback kwarg (absent|[]|[sub]|[sub,var]) x wrap provides x system x subproject ok x override'),
                       labels=('system', 'subproject', 'notfound', 'error', 'arg-error'), max_paths=3000000),
            Obligation('policy+versions', ob_policy(True), dict(cells='as policy', versions='wanted >= d1, subproject version d2, symbolic digits'),
                       labels=('system', 'subproject', 'notfound', 'error'), max_paths=5000000),
